@@ -167,8 +167,20 @@ def stepHistory (m : Nat) (st : HSt) (j : Json) : R (HSt × Option Json) := do
             let pairs (l : List (String × String)) : Json := .arr (l.map (fun (a, b) => Json.arr #[.str a, .str b])).toArray
             Json.mkObj [("nodes", .arr (g.nodes.map Json.str).toArray), ("solid", pairs g.solid), ("dashed", pairs g.dashed)]
           | .error _ => .null
+        let structJ : Json := match analysisPhase m W st.store rq with
+          | .ok (_, _, fis, paths) =>
+            let arity (n : String) : Nat := match W.find n with | some f => f.params.length | none => 0
+            let refs := o.store.paths.filter (fun pk => (aget paths pk.1).isNone)
+            match structureM arity refs fis with
+            | .ok g =>
+              let ty (t : EdgeTy) : String := match t with | .direct => "solid" | .indirect => "dashed" | .implicit => "dotted"
+              Json.mkObj [("nodes", .arr (g.nodes.map Json.str).toArray),
+                          ("edges", .arr (g.edges.map (fun e => Json.arr #[.str e.src, .str e.dst, .str (ty e.ty)])).toArray)]
+            | .error e => Json.mkObj [("error", .str e)]
+          | .error _ => .null
         let out := Json.mkObj [
           ("graph", graphJ),
+          ("structure", structJ),
           ("value", match o.value with | .ok (some v) => rvalJson v | _ => .null),
           ("error", match o.value with | .error e => xErrJson e | .ok _ => .null),
           ("log", .arr (o.log.map Json.str).toArray),
